@@ -32,18 +32,18 @@ import (
 type ELOp struct {
 	ID     uint64   `json:"id"`
 	Kind   string   `json:"k"`
-	Addr   string   `json:"addr,omitempty"`  // bitcoin address (withdraw)
-	Val    string   `json:"val,omitempty"`   // validator address hex
-	Token  string   `json:"tok,omitempty"`   // token address hex
-	Rcpt   string   `json:"rcpt,omitempty"`  // recipient hex
-	Amount string   `json:"amt,omitempty"`   // decimal
+	Addr   string   `json:"addr,omitempty"` // bitcoin address (withdraw)
+	Val    string   `json:"val,omitempty"`  // validator address hex
+	Token  string   `json:"tok,omitempty"`  // token address hex
+	Rcpt   string   `json:"rcpt,omitempty"` // recipient hex
+	Amount string   `json:"amt,omitempty"`  // decimal
 	U1     uint64   `json:"u1,omitempty"`
 	U2     uint64   `json:"u2,omitempty"`
-	Pub    string   `json:"pub,omitempty"`   // 64-byte uncompressed pubkey hex (create)
-	Hash   string   `json:"hash,omitempty"`  // 32 byte hex (add voter: key hash)
-	Raw    []string `json:"raw,omitempty"`   // raw request items, hex (adversarial EL)
-	Fee    string   `json:"fee,omitempty"`   // gas fee paid to validators, decimal
-	Guards bool     `json:"g"`               // contract guards on (well-behaved EL)
+	Pub    string   `json:"pub,omitempty"`  // 64-byte uncompressed pubkey hex (create)
+	Hash   string   `json:"hash,omitempty"` // 32 byte hex (add voter: key hash)
+	Raw    []string `json:"raw,omitempty"`  // raw request items, hex (adversarial EL)
+	Fee    string   `json:"fee,omitempty"`  // gas fee paid to validators, decimal
+	Guards bool     `json:"g"`              // contract guards on (well-behaved EL)
 
 	attempts int // payload builds that included this operation without it becoming canonical
 }
@@ -423,7 +423,28 @@ func (s *ELState) applyOp(o *ELOp, acc *reqAcc) bool {
 		acc.R.Removes = append(acc.R.Removes, &goattypes.RemoveVoterRequest{Voter: v})
 	case "raw":
 		for _, r := range o.Raw {
-			acc.Raw = append(acc.Raw, common.FromHex(r))
+			raw := common.FromHex(r)
+			acc.Raw = append(acc.Raw, raw)
+			// a raw request that happens to decode as bridge traffic is, for the contract model, a
+			// withdrawal the contract recorded (otherwise the consensus layer's answer to it would
+			// look like an answer to nothing)
+			if br, _, _, err := goattypes.DecodeRequests([][]byte{raw}); err == nil {
+				for _, wr := range br.Withdraws {
+					if s.Wd[wr.Id] == nil {
+						s.Wd[wr.Id] = &ELWithdrawal{ID: wr.Id, Addr: wr.Address, Amount: wr.Amount, MaxPrice: wr.TxPrice, Status: "pending"}
+					}
+				}
+				for _, c := range br.Cancel1s {
+					if w := s.Wd[c.Id]; w != nil && w.Status == "pending" {
+						w.Status = "canceling"
+					}
+				}
+				for _, c := range br.ReplaceByFees {
+					if w := s.Wd[c.Id]; w != nil {
+						w.MaxPrice = c.TxPrice
+					}
+				}
+			}
 		}
 	case "noop":
 	default:
